@@ -80,6 +80,18 @@ func CellStores(cell ssa.Value) []*ssa.Store {
 	return out
 }
 
+// CellLoads returns the loads of exactly the cell (in the allocating function and in closures capturing it).
+func CellLoads(cell ssa.Value) []ssa.Value {
+	root := RootAlloc(cell)
+	var out []ssa.Value
+	for _, r := range cellRefs(root) {
+		if ld, ok := r.(*ssa.UnOp); ok && ld.Op == token.MUL && RootAlloc(ld.X) == root {
+			out = append(out, ld)
+		}
+	}
+	return out
+}
+
 // CellRefs exposes every referrer of a (possibly captured) variable cell.
 func CellRefs(cell ssa.Value) []ssa.Instruction { return cellRefs(RootAlloc(cell)) }
 
